@@ -159,6 +159,83 @@ l1:
 """,
 ]
 
+# VARR growth while the array is not full (VARR_EXPAND / VARR_PUSH_ARR paths): a call with 70 arguments
+# (interpreter argument arrays, FFI descriptors), very long register names in an inlined callee (temp_string,
+# reg_name), so that realloc's old size (capacity) differs from the number of elements in use
+_ARGS70 = ', '.join('i64:a%d' % i for i in range(70))
+MIR_POOL.append("""m@N@: module
+  export f@N@
+  import host_add
+ph@N@: proto i64, i64:a, i64:b
+pg@N@: proto i64, %s
+g@N@: func i64, %s
+  local i64:r
+  add r, a0, a69
+  add r, r, a35
+  ret r
+  endfunc
+f@N@: func i64, i64:n
+  local i64:r, i64:t
+  call pg@N@, g@N@, r, %s
+  call ph@N@, host_add, t, r, n
+  ret t
+  endfunc
+  endmodule
+""" % (_ARGS70, _ARGS70, ', '.join(['n'] * 70)))
+_LONG = 'v' * 93
+MIR_POOL.append("""m@N@: module
+  export f@N@
+pg@N@: proto i64, i64:x
+g@N@: func i64, i64:x
+  local i64:%(L)s_a, i64:%(L)s_b
+  mul %(L)s_a, x, 3
+  add %(L)s_b, %(L)s_a, 1
+  ret %(L)s_b
+  endfunc
+f@N@: func i64, i64:n
+  local i64:r, i64:%(L)s_c
+  inline pg@N@, g@N@, r, n
+  add %(L)s_c, r, n
+  inline pg@N@, g@N@, r, %(L)s_c
+  ret r
+  endfunc
+  endmodule
+""" % dict(L=_LONG))
+C_POOL.append("""static long g@N@ (long a0, long a1, long a2, long a3, long a4, long a5, long a6, long a7, long a8, long a9,
+  long b0, long b1, long b2, long b3, long b4, long b5, long b6, long b7, long b8, long b9) { return a0 + a9 * 2 + b0 * 3 + b9 * 5; }
+long f@N@ (long %(L)s_n) {
+  long %(L)s_local_variable_one = %(L)s_n + 1, %(L)s_local_variable_two = %(L)s_n * 2;
+  return g@N@ (%(L)s_n, 1, 2, 3, 4, 5, 6, 7, 8, %(L)s_local_variable_one, %(L)s_local_variable_two, 1, 2, 3, 4, 5, 6, 7, 8, 9);
+}
+""" % dict(L='identifier_' + 'x' * 80))
+
+
+def stress_module(rng, name, nfunc):
+    """MIR text: nfunc small functions of varied length, each calling a host function through one of several
+    prototypes of different arity / argument types (distinct FFI stubs, thunks, shims and machine-code blobs of many
+    different sizes: fills code holders up to their last bytes), all called from f<name>"""
+    types = ['i64', 'i64', 'i64', 'd', 'f', 'u32', 'i8']
+    protos = []
+    for j in range(rng.choice([3, 6, 10])):
+        k = rng.randrange(0, 11)
+        protos.append([rng.choice(types) for _ in range(k)])
+    L = ['m%s: module' % name, '  export f%s' % name, '  import host_add', 'ph%s: proto i64, i64:x' % name]
+    for j, ts in enumerate(protos):
+        L.append('p%s_%d: proto i64, i64:a, i64:b%s' % (name, j, ''.join(', %s:e%d' % (t, i) for i, t in enumerate(ts))))
+    for i in range(nfunc):
+        j = rng.randrange(len(protos))
+        L += ['h%s_%d: func i64, i64:x' % (name, i), '  local i64:r, d:dd, f:ff', '  mov r, x', '  i2d dd, x', '  i2f ff, x']
+        for _ in range(rng.randrange(0, 14)):
+            L.append(rng.choice(['  add r, r, %d' % rng.randrange(1, 1 << rng.choice([3, 20, 40])), '  mul r, r, 3',
+                                 '  xor r, r, x', '  lsh r, r, 1', '  dadd dd, dd, dd', '  sub r, r, x']))
+        extra = ''.join(', ' + {'d': 'dd', 'f': 'ff'}.get(t, 'r') for t in protos[j])
+        L += ['  call p%s_%d, host_add, r, r, x%s' % (name, j, extra), '  ret r', '  endfunc']
+    L += ['f%s: func i64, i64:n' % name, '  local i64:s, i64:t', '  mov s, 0']
+    for i in range(nfunc):
+        L += ['  call ph%s, h%s_%d, t, n' % (name, name, i), '  add s, s, t']
+    L += ['  ret s', '  endfunc', '  endmodule', '']
+    return '\n'.join(L)
+
 
 def hexs(s):
     return binascii.hexlify(s.encode()).decode()
@@ -198,6 +275,11 @@ class Scen:
             if rng.random() < 0.25:
                 self.lines.append('c2m_finish')
                 self.c2m_on = False
+        elif k < 0.53:
+            n = self.name()
+            self.lines.append('scan ' + hexs(stress_module(rng, n, rng.choice([20, 60, 150]))))
+            self.funcs.append(('f' + n, 'stress')); self.func_line['f' + n] = len(self.lines) - 1
+            self.kinds.append('stress')
         elif k < 0.75:
             i = rng.randrange(len(MIR_POOL))
             n = self.name()
@@ -347,6 +429,10 @@ def fixed_scenarios():
                 x = nm()
                 L.append('scan ' + hexs(MIR_POOL[i].replace('@N@', x)))
                 fs.append('f' + x)
+            import random as _r
+            x = nm()
+            L.append('scan ' + hexs(stress_module(_r.Random(len(out)), x, 200)))
+            fs.append('f' + x)
             L += ['api 900 1', 'output', 'write', 'read' if False else 'fwrite', 'load', 'gen_init', 'opt %d' % lvl,
                   'link ' + iface]
             fs.append('apif900')
